@@ -556,7 +556,9 @@ def select_cases(calls, rng, per_kernel=6, per_kernel_random=3):
         # p2s map, vanishing K with direction, flag values) gets its share: round-robin over the classes
         def klass(c):
             f = index_map_facts(c)
-            return (f["gllimit"], f["noncontig"], f["p2sprefix"], shape_class(c),
+            # (the fine-mesh lattices are a class of their own, or the thorough tier's many coarse-mesh calls of
+            # the same kernel would crowd them out of the per-kernel budget)
+            return (c["tag"].startswith("tetrahedron-fine"), f["gllimit"], f["noncontig"], f["p2sprefix"], shape_class(c),
                     tuple(scalar_sig(x) for x in c["args"] if not isinstance(x, np.ndarray) and scalar_sig(x) != "f"))
 
         byc = {}
